@@ -126,8 +126,12 @@ Image.new("RGB", (4, 8), (200, 10, 10)).save(
 _STILL = Image.new("RGB", (4, 8), (10, 20, 200))
 
 
-def make_instance(cls):
-    if type(cls) is T2.ITerm2ImageMeta:
+N_FRAMES = 2
+
+
+def make_instance(cls, animated=True):
+    """an instance over the two-frame GIF file (animated) or over a still PIL image"""
+    if animated:
         return cls.from_file(_GIF, width=2)
     return cls(_STILL, width=2)
 
@@ -152,9 +156,79 @@ def classify_render(inst, out: str) -> str:
     return "?style"
 
 
-def render(inst, override):
-    args = {} if override is None else type(inst)._check_style_args({"method": override})
-    return classify_render(inst, inst._renderer(inst._render_image, TC._ALPHA_THRESHOLD, **args))
+def classify_stream(inst, out: str) -> str:
+    """Which render method produced the frames of one loop of a `draw()` animation."""
+    h = inst.rendered_height
+    iterm = type(type(inst)) is T2.ITerm2ImageMeta
+    n = out.count("\x1b]1337;File=") if iterm else out.count("a=T")
+    if n == h * N_FRAMES:
+        return "lines"
+    if n == N_FRAMES:
+        if iterm:
+            for part in out.split("\x1b]1337;File=")[1:]:
+                if base64.b64decode(part.split(":", 1)[1][:16]).startswith(b"GIF8"):
+                    return "?gif-frame"  # a natively animated payload among the frames
+        return "whole"
+    if n == 1 and iterm:
+        return classify_render(inst, out)
+    return f"?{n}"
+
+
+LETTER = {"lines": "L", "whole": "W", "anim": "A"}
+
+
+def _no_sleep(_):
+    return None
+
+
+def render(inst, override, entry="static"):
+    """render `inst` through one entry point; the method used is read off the emitted bytes"""
+    import contextlib
+    import io
+    import time
+
+    if entry == "static":
+        args = {} if override is None else type(inst)._check_style_args({"method": override})
+        return classify_render(inst, inst._renderer(inst._render_image, TC._ALPHA_THRESHOLD, **args))
+    if entry == "str":
+        if override is not None:
+            raise LookupError("out of model")
+        return classify_render(inst, str(inst))
+    if entry in ("fmt", "iter"):
+        if entry == "iter" and not inst.is_animated:
+            TI.ImageIterator(inst, 1, "1.1")  # raises ValueError
+            return "?not-raised"
+        if override is None:
+            spec = "1.1"
+        elif isinstance(override, str) and override.lower() in getattr(type(inst), "_render_methods", ()) :
+            spec = "1.1+" + LETTER[override.lower()]
+        else:
+            raise LookupError("out of model")
+        if entry == "fmt":
+            return classify_render(inst, format(inst, spec))
+        it = TI.ImageIterator(inst, 1, spec)
+        try:
+            kinds = {classify_render(inst, frame) for frame in it}
+        finally:
+            it.close()
+        return kinds.pop() if len(kinds) == 1 else "?mixed:" + "+".join(sorted(kinds))
+    style = {} if override is None else {"method": override}
+    out = io.StringIO()
+    real_sleep = time.sleep
+    time.sleep = _no_sleep
+    try:
+        with contextlib.redirect_stdout(out):
+            if entry == "draw":
+                inst.draw("left", 0, "top", 1, animate=False, **style)
+            elif entry == "anim":
+                inst.draw("left", 0, "top", 1, repeat=1, **style)
+            else:
+                raise LookupError("out of model")
+    finally:
+        time.sleep = real_sleep
+    if entry == "anim" and inst.is_animated:
+        return classify_stream(inst, out.getvalue())
+    return classify_render(inst, out.getvalue())
 
 
 class World:
@@ -167,11 +241,13 @@ class World:
         self.own_default = {}
         self.fam = {i: ("iterm2" if c is TI.ITerm2Image else "kitty" if c is TI.KittyImage else None) for i, c in enumerate(LIB)}
         self.inst_cls = []  # class id of every instance
+        self.inst_anim = []  # is the instance's source animated
         self.names = [c.__name__ for c in LIB]
 
     def shadow(self):
         """what the oracle needs, without keeping the classes alive"""
-        return Shadow(dict(self.parent), dict(self.own_default), dict(self.fam), list(self.inst_cls), list(self.names))
+        return Shadow(dict(self.parent), dict(self.own_default), dict(self.fam), list(self.inst_cls), list(self.names),
+                      list(self.inst_anim))
 
     def target(self, t):
         return self.classes[int(t[1:])] if t[0] == "c" else self.insts[int(t[1:])]
@@ -220,8 +296,9 @@ class World:
             cls = self.classes[int(f[1])]
             if inspect.isabstract(cls):
                 return "!OutOfModel"  # instantiating an abstract style class is not part of the property
-            self.insts.append(make_instance(cls))
+            self.insts.append(make_instance(cls, animated=len(f) < 3))
             self.inst_cls.append(int(f[1]))
+            self.inst_anim.append(len(f) < 3)
             return f"i{len(self.insts) - 1}"
         if f[0] == "dump":
             cr, ir = self.snapshot()
@@ -229,7 +306,9 @@ class World:
         if f[0] == "rend":
             inst = self.insts[int(f[1])]
             try:
-                return "m:" + render(inst, dec(f[2]))
+                return "m:" + render(inst, dec(f[2]), f[3] if len(f) > 3 else "static")
+            except LookupError:
+                return "!OutOfModel"
             except EXC as e:
                 return "!" + type(e).__name__
         k, obj = f[1], self.target(f[2])
@@ -282,8 +361,9 @@ METHODS = {"kitty": {"lines", "whole"}, "iterm2": {"lines", "whole", "anim"}}
 
 
 class Shadow:
-    def __init__(self, parent, own_default, fam, inst_cls, names):
+    def __init__(self, parent, own_default, fam, inst_cls, names, inst_anim):
         self.parent, self.own_default, self.fam, self.inst_cls, self.names = parent, own_default, fam, inst_cls, names
+        self.inst_anim = inst_anim
 
 
 class Spec:
@@ -429,17 +509,28 @@ def check_history(ops, res, snaps, w: Shadow):
         elif f[0] == "rend" and not r.startswith("!OutOfModel"):
             i = int(f[1])
             ov = dec(f[2])
+            entry = f[3] if len(f) > 3 else "static"
             fam = sp.family(sp.w.inst_cls[i])
-            if fam is not None:
+            animated = sp.w.inst_anim[i]
+            if entry == "iter" and not animated:
+                if r != "!ValueError":
+                    return ("render/iterator-over-still-image", f"{where}: ImageIterator over a non-animated image gave {r}", n)
+            elif fam is not None:
                 if ov is not None and verdict_valid("rm", ov, fam) is False:
                     if not r.startswith("!"):
                         return ("render/override-invalid-accepted", f"{where}: invalid per-call method rendered {r}", n)
                 else:
-                    exp = ov.lower() if ov is not None else sp.eff("rm", "i", i)[1]
-                    exp = exp.lower() if isinstance(exp, str) else exp
+                    resolved = ov.lower() if ov is not None else sp.eff("rm", "i", i)[1]
+                    resolved = resolved.lower() if isinstance(resolved, str) else resolved
+                    # documented: ANIM -> WHOLE for the separate frames of an animation / iterator and
+                    # for non-animated images
+                    frames = entry == "iter" or (entry == "anim" and animated)
+                    exp = "whole" if resolved == "anim" and (frames or not animated) else resolved
                     if r != f"m:{exp}":
-                        return (f"render/uses-effective/{'with' if ov is not None else 'without'}-override",
-                                f"{where}: render framing is {r}, the {'override' if ov is not None else 'effective method'} is {exp}", n)
+                        return (f"render/uses-effective/{entry}/{'with' if ov is not None else 'without'}-override",
+                                f"{where}: the bytes emitted through entry point `{entry}` show {r}; the "
+                                f"{'per-call override' if ov is not None else 'effective method of the instance'} is "
+                                f"{resolved}" + (" (-> whole for separate frames / still images)" if exp != resolved else ""), n)
         if f[0] not in ("set", "del") and not unchanged(prev, snap):
             return (f"observer-changed-state/{f[0]}", f"{where} changed what is reported", n)
         prev = snap
@@ -449,6 +540,7 @@ def check_history(ops, res, snaps, w: Shadow):
 # --------------------------------------------------------------------------------------
 # generator
 
+ENTRIES = ["static", "str", "fmt", "draw", "anim", "anim", "iter", "iter"]
 CASINGS = [str.lower, str.upper, str.title, lambda s: s[0] + s[1:].upper(), str.lower]
 BAD_RM = ["foo", "", "line", "lines ", "wholK", "İnes", "LINES\n"]
 
@@ -525,7 +617,7 @@ class Gen:
             cands = [c for c in pool if c in concrete]
             if cands:
                 c = rng.choice(cands)
-                ops.append(f"ni,{c}")
+                ops.append(f"ni,{c}" if rng.random() < 0.75 else f"ni,{c},s")
                 inst_cls.append(c)
 
         for _ in range(rng.choice([1, 2, 3, 4, 6, 8])):
@@ -533,6 +625,10 @@ class Gen:
         for _ in range(rng.choice([0, 1, 2, 3])):
             new_inst()
         set_at = set()  # (k, target) currently holding an override (as far as the generator knows)
+        if root is not None and rng.random() < 0.3:
+            # the style's own class holds a non-default class-wide method while nearer levels change
+            ops.append(f"set,rm,c{root},{enc(rng.choice(CASINGS)(rng.choice(sorted(METHODS[self.fam_of(root, parent)]))))}")
+            set_at.add(("rm", f"c{root}"))
         n_ops = rng.choice([6, 10, 16, 24, 36])
         settings = ["rm", "rm", "rm", "fs", "jq", "rf", "na"] if root != self.kitty else ["rm", "rm", "fs"]
         if root is None:
@@ -580,10 +676,19 @@ class Gen:
                 if cand:
                     i = rng.choice(cand)
                     fam = self.fam_of(inst_cls[i], parent)
-                    ov = "N" if rng.random() < 0.5 else self.value("rm", fam, 0.75)
-                    ops.append(f"rend,{i},{ov}")
+                    entry = rng.choice(ENTRIES)
+                    if entry == "str" or rng.random() < 0.5:
+                        ov = "N"
+                    elif entry in ("fmt", "iter"):
+                        ov = enc(rng.choice(CASINGS)(rng.choice(sorted(METHODS[fam]))))
+                    else:
+                        ov = self.value("rm", fam, 0.75)
+                    ops.append(f"rend,{i},{ov},{entry}")
             else:
                 ops.append("dump")
+        for i, c in enumerate(inst_cls):  # what every instance ends up rendering with
+            if self.fam_of(c, parent) and rng.random() < 0.5:
+                ops.append(f"rend,{i},N,{rng.choice(ENTRIES)}")
         ops.append("dump")
         tag = {self.kitty: "kitty", self.iterm: "iterm2", None: "whole-tree"}[root]
         kind = tag + ("/" + "+".join(sorted(shape_flags)) if shape_flags else "/plain")
@@ -610,6 +715,34 @@ def targeted(n_lib, kitty, iterm):
                         ops += [f"set,{k},i0,{v2}", f"rend,0,N", f"del,{k},i0" if k != "rm" else "set,rm,i0,N", "rend,0,N", "dump"]
                         ops += [f"del,{k},c{anc}" if k != "rm" else f"set,rm,c{anc},N", "dump", "rend,1,N"]
                     out.append((ops, f"targeted/{fam}/{k}"))
+    return out
+
+
+def entry_family(n_lib, kitty, iterm):
+    """every render entry point x per-call override, on an animated and a still instance of B(A(root)),
+    for every class-wide method of the style's own class x every nearer level (none / class A / the
+    instances) holding every method"""
+    out = []
+    for root, fam in ((kitty, "kitty"), (iterm, "iterm2")):
+        names = sorted(METHODS[fam])
+        a, b = n_lib, n_lib + 1
+        head = [f"nc,{root},-", f"nc,{a},-", f"ni,{b}", f"ni,{b},s"]
+        for m1 in [None] + names:
+            nearer = [None] + [(lvl, m2) for lvl in ("class", "inst") for m2 in names]
+            for near in nearer:
+                ops = list(head)
+                if m1 is not None:
+                    ops.append(f"set,rm,c{root},{S(m1.upper())}")
+                if near is not None:
+                    lvl, m2 = near
+                    ops += [f"set,rm,c{a},{S(m2)}"] if lvl == "class" else [f"set,rm,i0,{S(m2)}", f"set,rm,i1,{S(m2.title())}"]
+                for i in (0, 1):
+                    for entry in ("static", "str", "fmt", "draw", "anim", "iter"):
+                        ops.append(f"rend,{i},N,{entry}")
+                        if entry != "str":
+                            ops += [f"rend,{i},{S(m)},{entry}" for m in names]
+                ops.append("dump")
+                out.append((ops, f"entries/{fam}/root-{m1 or 'unset'}/nearer-{'none' if near is None else near[0]}"))
     return out
 
 
@@ -712,6 +845,8 @@ class C20(Property):
             f"def fsMeta : Bool := {lean_bool(fs_meta)}\n"
             f"def jqMax : Int := {accepted[-1]}\n"
             f"def naDefault : Int := {int(na)}\n"
+            f"def animName : String := {lean_str(T2.ANIM)}\n"
+            f"def wholeName : String := {lean_str(T2.WHOLE)}\n"
             "end TIV.C20.Generated\n"
         )
         return {"TIV/C20/Generated.lean": body}
@@ -719,7 +854,7 @@ class C20(Property):
     # -- generator --------------------------------------------------------------------
     def generate(self, rng: random.Random, tier: str):
         g = Gen(rng)
-        for ops, kind in targeted(g.n_lib, g.kitty, g.iterm):
+        for ops, kind in targeted(g.n_lib, g.kitty, g.iterm) + entry_family(g.n_lib, g.kitty, g.iterm):
             yield Case("run " + " ".join(ops), {"ops": ops}, kind, True)
         small = [(g.kitty, "rm", 2), (g.iterm, "jq", 2)] if tier == "quick" else \
             [(g.kitty, "rm", 4), (g.iterm, "rm", 3), (g.iterm, "jq", 3), (g.iterm, "rf", 3)]
@@ -768,7 +903,8 @@ class C20(Property):
     def search(self, rng, tier, reasons):
         g = Gen(rng)
         out = []
-        hist = targeted(g.n_lib, g.kitty, g.iterm) + [g.history() for _ in range(3000)]
+        hist = targeted(g.n_lib, g.kitty, g.iterm) + entry_family(g.n_lib, g.kitty, g.iterm) + \
+            [g.history() for _ in range(3000)]
         for ops, _ in hist:
             res, snaps, w = execute(ops)
             bad = check_history(ops, res, snaps, w)
